@@ -108,8 +108,9 @@ enum Mode {
     StructDirAlpha,
     PayloadPlain,
     PayloadStruct,
+    SarifArgs,
 }
-const MODES: [Mode; 8] = [Mode::PlainArgs, Mode::StructArgs, Mode::JunitArgs, Mode::PlainDirAlpha, Mode::PlainDirMtime, Mode::StructDirAlpha, Mode::PayloadPlain, Mode::PayloadStruct];
+const MODES: [Mode; 9] = [Mode::SarifArgs, Mode::PlainArgs, Mode::StructArgs, Mode::JunitArgs, Mode::PlainDirAlpha, Mode::PlainDirMtime, Mode::StructDirAlpha, Mode::PayloadPlain, Mode::PayloadStruct];
 
 fn set_mtime(path: &str, secs: u64) {
     if let Ok(f) = std::fs::OpenOptions::new().write(true).open(path) {
@@ -166,6 +167,11 @@ fn run_batch(rs: &[usize], ds: &[usize], mode: Mode, alone_p: &[Vec<Option<PairR
             argv.extend(sv(&["--structured", "-o", "junit", "-S", "none"]));
             (false, true)
         }
+        Mode::SarifArgs => {
+            explicit(&mut argv);
+            argv.extend(sv(&["--structured", "-o", "sarif", "-S", "none"]));
+            (false, false)
+        }
         Mode::PlainDirAlpha => {
             argv.extend(vec!["-r".into(), rdir.clone(), "-d".into(), ddir.clone(), "-a".into(), "-S".into(), "all".into()]);
             (true, false)
@@ -213,7 +219,41 @@ fn run_batch(rs: &[usize], ds: &[usize], mode: Mode, alone_p: &[Vec<Option<PairR
     if o.status() != want_exit {
         acc.violate(&format!("batch-exit:{:?}", mode), format!("{}: exit {} but {}", label, o.status(), if any_fail { "some pair fails" } else { "no pair fails" }), replay(&format!("exit {}", o.status())));
     }
-    if plain {
+    if mode == Mode::SarifArgs {
+        // results per data file (by artifact location) = the results of every pair validated alone
+        fn results(text: &str) -> Result<Vec<(String, String, String)>, String> {
+            let v: serde_json::Value = serde_json::from_str(text).map_err(|e| format!("not JSON: {}", e))?;
+            let mut out = vec![];
+            for run in v["runs"].as_array().ok_or("no runs")? {
+                for r in run["results"].as_array().ok_or("no results")? {
+                    out.push((r["locations"][0]["physicalLocation"]["artifactLocation"]["uri"].as_str().unwrap_or("").to_string(), r["ruleId"].as_str().unwrap_or("").to_string(), r["message"]["text"].as_str().unwrap_or("").to_string()));
+                }
+            }
+            Ok(out)
+        }
+        match results(&o.out) {
+            Err(e) => acc.violate("sarif-not-well-formed", format!("{}: {}", label, e), replay(&e)),
+            Ok(got) => {
+                for (dp, dk) in ds.iter().enumerate() {
+                    let mut want: Vec<(String, String)> = vec![];
+                    for (rp, _) in rs.iter().enumerate() {
+                        let a = cli_inproc(&sv(&["validate", "-r", &rpaths[rp].0, "-d", &dpaths[dp].0, "--structured", "-o", "sarif", "-S", "none"]), "");
+                        acc.traces += 1;
+                        want.extend(results(&a.out).unwrap_or_default().into_iter().map(|(_, r, m)| (r, m)));
+                    }
+                    let mut have: Vec<(String, String)> = got.iter().filter(|(u, _, _)| u.ends_with(&dpaths[dp].1)).map(|(_, r, m)| (r.clone(), m.clone())).collect();
+                    want.sort();
+                    have.sort();
+                    if want != have {
+                        acc.violate(&format!("pair-differs:{:?}", mode), format!("{}: SARIF lists {} results for D{} in the batch, the pairs alone give {}", label, have.len(), dk, want.len()), replay(&format!("{:?}", have)));
+                    }
+                }
+                if got.iter().any(|(u, _, _)| !dpaths.iter().any(|(_, n)| u.ends_with(n))) {
+                    acc.violate("sarif-result-for-unknown-file", format!("{}: a result is located in a file that was not given", label), replay("location"));
+                }
+            }
+        }
+    } else if plain {
         let got = parse_plain_pairs(&o.out);
         for (rp, rk) in rs.iter().enumerate() {
             for (dp, dk) in ds.iter().enumerate() {
